@@ -529,7 +529,9 @@ def rule_velfitform(ctx):
         extra = []
         for cc, pp in symeval.pc_conds(c.pc):
             empty_test = cc.op == "cmp" and cc.a[0] == "==" and any(tm.is_const(z, 0) for z in cc.a[1:]) and any(count_form(z) is not None or (z.op == "attr" and z.a[1] == "size") for z in cc.a[1:]) and any(y.op == "call" and call_name(y) in ("transcription.match_notes", "util.match_events") for y in tm.walk(cc))
-            if not (empty_test and not pp):
+            # (`if not matching: return ..` - the truth value of the matching list is its non-emptiness)
+            truthy_matching = pp and ((cc.op == "call" and call_name(cc) in ("transcription.match_notes", "util.match_events", "builtins.len")) or count_form(cc) is not None) and any(y.op == "call" and call_name(y) in ("transcription.match_notes", "util.match_events") for y in tm.walk(cc))
+            if not ((empty_test and not pp) or truthy_matching):
                 extra.append(tm.show(cc, 3))
         yield ob(R, f, "transcription_velocity.match_notes:fit-unconditional@%d" % i, not extra, "the rescaling fit is made for every non-empty matching" if not extra else "the rescaling fit is only made when %s: otherwise the estimated velocities stay unscaled and are compared with the normalised reference velocities" % "; ".join(extra), node=c.node)
 
